@@ -488,6 +488,8 @@ func (m *monitor) decryptSweep(files []*dfile) {
 		}
 	})
 	th := time.Now()
+	m.emptyAnswerSweep()
+	m.bigBufferSweep(ss)
 	m.headerLineSweep(ss)
 	m.headerSizeSweep(ss)
 	if os.Getenv("C12_TIMING") != "" {
